@@ -628,6 +628,19 @@ func runFF(o *Opts) *Summary {
 		w.itxSeen = map[string]bool{}
 		w.traceNo = t + 1
 		w.tsBase = time.Now().Unix()
+		if t%4 == 3 {
+			// a network started by a single founder, and a fast-sync joiner
+			a, r, fa := runFFSingle(w, o, tams)
+			adoptedValid, refused, forgedAdopted = adoptedValid+a, refused+r, forgedAdopted+fa
+			offers += a + r + fa
+			continue
+		}
+		colliding := t%4 == 1
+		if colliding {
+			// validator 1 and the first stranger have the same 32-bit peer ID
+			w.SetKey(1, collidingKeyA)
+			w.SetKey(n+1, collidingKeyB)
+		}
 		vn := NewVNet(w)
 		gen := []int{}
 		for i := 1; i <= n; i++ {
@@ -693,6 +706,16 @@ func runFF(o *Opts) *Summary {
 			offers++
 		}
 		// (2) forged triples signed by strangers only
+		if colliding {
+			if vn.tryFF(f, "forged-by-a-stranger-whose-id-equals-a-validators", func(server *NNode, resp *bnet.FastForwardResponse) {
+				*resp = *forgedResponse(w, strangers[:1], resp)
+			}, trusted) {
+				forgedAdopted++
+			} else {
+				refused++
+			}
+			offers++
+		}
 		for k := 1; k <= len(strangers); k += 2 {
 			st := strangers[:k]
 			if vn.tryFF(f, fmt.Sprintf("forged-by-%d-strangers", k), func(server *NNode, resp *bnet.FastForwardResponse) {
@@ -780,4 +803,55 @@ func runFF(o *Opts) *Summary {
 	s.Lines = w.lines
 	w.CloseTrace()
 	return s
+}
+
+// runFFSingle: genesis = one founder, which builds its chain alone; a joiner
+// with fast-sync enabled (it knows the founder only) is offered forged
+// responses signed by strangers, tampered responses, then the valid one.
+func runFFSingle(w *World, o *Opts, tams []ffTamper) (adoptedValid, refused, forgedAdopted int) {
+	vn := NewVNet(w)
+	defer vn.Close()
+	gen := []int{1}
+	founder := vn.NewNode(w.parts[0], gen, gen, NodeOpts{Store: "inmem", Cache: o.Cache, SyncLimit: 40})
+	founder.node.Init()
+	vn.EmitInit(map[string]interface{}{"sched": "ff-single-founder", "nc": len(w.parts)})
+	for k := 0; k < o.Steps/3; k++ {
+		if w.rng.Float64() < 0.6 {
+			id, payload := w.RandTx()
+			vn.Submit(founder, id, payload)
+		}
+		vn.Monologue(founder)
+	}
+	if founder.core.Hg().AnchorBlock == nil {
+		return
+	}
+	j := vn.NewNode(w.parts[1], gen, gen, NodeOpts{Store: "inmem", Cache: o.Cache, SyncLimit: 40, FastSync: true})
+	j.node.Init()
+	vn.emitNodeUp(j, "fast-sync")
+	prev := j.State()
+	j.node.VTransition(_state.CatchingUp)
+	w.Emit(j.num, "StateChange", map[string]interface{}{"from": prev, "to": "CatchingUp", "why": "driver"}, nil)
+	trusted := map[string]bool{canonKey(w.parts[0].PubHex): true}
+	strangers := w.parts[2:]
+	for k := 1; k <= len(strangers); k += 2 {
+		st := strangers[:k]
+		if vn.tryFF(j, fmt.Sprintf("forged-by-%d-strangers-single-founder", k), func(server *NNode, resp *bnet.FastForwardResponse) {
+			*resp = *forgedResponse(w, st, resp)
+		}, trusted) {
+			forgedAdopted++
+			return
+		}
+		refused++
+	}
+	for q := 0; q < 6; q++ {
+		tm := tams[w.rng.Intn(len(tams))]
+		if vn.tryFF(j, tm.name, func(server *NNode, resp *bnet.FastForwardResponse) { tm.f(resp, w) }, trusted) {
+			return
+		}
+		refused++
+	}
+	if j.State() == "CatchingUp" && vn.tryFF(j, "none", nil, trusted) {
+		adoptedValid++
+	}
+	return
 }
